@@ -24,7 +24,8 @@ import time
 VERIF = os.path.dirname(os.path.abspath(__file__))
 HARNESS = os.path.join(VERIF, "harness")
 BUILD = os.path.join(VERIF, ".build")
-REPO = "/repo"
+REPO = os.environ.get("VERIF_REPO", "/repo").rstrip("/") or "/repo"   # VERIF_REPO: run against a scratch copy (sensitivity runs)
+ALT = "" if REPO == "/repo" else "." + re.sub(r"[^A-Za-z0-9]+", "_", REPO)
 NPROC = os.cpu_count() or 4
 
 # property -> (cluster package, quick timeout s, thorough timeout s, thorough shards, [(fuzz target, seconds)])
@@ -59,12 +60,23 @@ def overlay_file():
     rep = {}
     for dst, src in HOOKS.items():
         rep[os.path.join(REPO, dst)] = os.path.join(VERIF, "hooks", src)
-    p = os.path.join(BUILD, "overlay.json")
+    p = os.path.join(BUILD, "overlay%s.json" % ALT)
     tmp = p + ".%d" % os.getpid()
     with open(tmp, "w") as f:
         json.dump({"Replace": rep}, f)
     os.replace(tmp, p)
     return p
+
+
+def modfile_args():
+    """for VERIF_REPO: an alternative go.mod (replace => that copy) next to its own go.sum"""
+    if not ALT:
+        return []
+    mod = open(os.path.join(HARNESS, "go.mod")).read().replace("=> /repo", "=> " + REPO)
+    p = os.path.join(BUILD, "alt%s.mod" % ALT)
+    if not os.path.exists(p) or open(p).read() != mod:
+        open(p, "w").write(mod)
+    return ["-modfile=" + p]
 
 
 def sync_gosum():
@@ -74,7 +86,7 @@ def sync_gosum():
     if not want.endswith("\n"):
         want += "\n"
     want += extra
-    p = os.path.join(HARNESS, "go.sum")
+    p = os.path.join(HARNESS, "go.sum") if not ALT else os.path.join(BUILD, "alt%s.sum" % ALT)
     try:
         cur = open(p).read()
     except OSError:
@@ -89,14 +101,14 @@ def build(cluster, race=False):
     """go test -c of one cluster, from /repo's current working tree. Returns (binary path | None, log)."""
     os.makedirs(BUILD, exist_ok=True)
     ov = overlay_file()
-    name = cluster + (".race" if race else "") + ".test"
+    name = cluster + ALT + (".race" if race else "") + ".test"
     out = os.path.join(BUILD, name)
     lock = open(os.path.join(BUILD, name + ".lock"), "w")
     fcntl.flock(lock, fcntl.LOCK_EX)
     try:
         sync_gosum()
         tmp = out + ".tmp%d" % os.getpid()
-        cmd = ["go", "test", "-c", "-tags", "verif", "-vet=off", "-overlay", ov, "-o", tmp]
+        cmd = ["go", "test", "-c", "-tags", "verif", "-vet=off", "-overlay", ov, "-o", tmp] + modfile_args()
         if race:
             cmd.append("-race")
         cmd.append("./" + cluster + "/")
@@ -289,7 +301,7 @@ def run_fuzz(pid, cfg, scratch, notes):
         cdir = os.path.join(pkgdir, "testdata", "fuzz", target)
         before = set(os.listdir(cdir)) if os.path.isdir(cdir) else set()
         cmd = ["go", "test", "-tags", "verif", "-vet=off", "-overlay", overlay_file(), "-run", "^$",
-               "-fuzz", "^%s$" % target, "-fuzztime", "%ds" % secs, "-test.fuzzcachedir", os.path.join(scratch, "fuzzcache"),
+               "-fuzz", "^%s$" % target, "-fuzztime", "%ds" % secs, "-test.fuzzcachedir", os.path.join(scratch, "fuzzcache")] + modfile_args() + [
                "./" + cfg["cluster"] + "/"]
         env = go_env()
         env.update(VERIF_TIER="thorough", TMPDIR=scratch)
